@@ -116,3 +116,22 @@ props["C09"]["manifest"] = {
     "note": "Trusted: Lean kernel and the three standard axioms; the harness/driver; Path::canonicalize giving one identity per file. The semantic half (import = inlining of the closed provider term, fresh copy per occurrence, companion = ascription) is covered by the program-level checks of C07/C02, not by this model.",
     "technique": "Lean mirror of the loader, cycle detector and provider order with kernel-checked graph theorems + exhaustive small-world differential correspondence over a real file system",
 }
+
+props["C10"] = {
+    "harness": "c10",
+    "level": "other",
+    "nontrivial": r"^c10 (span2|spanshow|intlit|metaint) ",
+    "extra_eval_counters": ["search_inputs"],
+    "timeout": {"quick": 900, "thorough": 7200},
+    "rule": "modelled glue: every offset (or boundary + random offsets for long texts) of texts with CR/LF/multi-byte content, very long lines and very many lines through FileInfo::trans_span2 and Span display; integer and metadata literals at every representable boundary. Failing-input search (input_distribution.<stream>_<outcome>): token soups over the lexer's vocabulary with extreme literals and metadata, generated syntactically valid ill-formed terms over the whole grammar, token-level mutations (delete / duplicate / swap / replace / insert, incl. metadata) of every repository source analysed as an overlay at its own path so imports still resolve, and arbitrary character strings; every input goes through CompilerSession::analyze and the CLI's diagnostic rendering under catch_unwind with a 20 s watchdog, and every location a report mentions is checked to lie inside the file it names. distinct_nontrivial counts distinct requests of the modelled slices only (search inputs are counted in evaluations).",
+    "explanation": "Totality of ~20,000 lines of Rust is not a theorem about a model. Kernel-checked: the modelled glue sites (literal text to i128 / i64, span arithmetic and cursor packing) cannot panic on in-range input and lose nothing. Decisive evidence for the rest is the failing-input search: any panic, hang or out-of-file location is reported with the input as replay. Three panics found this way on the pinned tree were repaired by fix: commits (known-findings.json, status fixed).",
+    "trusted_base": [KERNEL, AXIOMS, HARNESS,
+                     "modelled, not verified: FileInfo::trans_span2 / CompactCursor2 (utils/span.rs) and the Integer / Meta literal actions (parser.lalrpop) are mirrored by ZV/Model/FrontGlue.lean and compared on every run",
+                     "NOT modelled: the LALRPOP runtime, desugarer, resolver, checker and renderer internals (several hundred unwrap/expect/unreachable sites justified by invariants of earlier phases): only the search can exhibit a panic there"],
+    "assumptions": ["nesting depth of generated inputs is bounded (the property excludes unbounded depth)"],
+}
+props["C10"]["manifest"] = {
+    "text": "Partial by nature: the theorems cover the glue sites that can be modelled (literal sizes, span arithmetic, cursor packing); the property's main content - no panic, hang or out-of-file location anywhere in the front end - is decided by a failing-input search over four adversarial input streams through CompilerSession::analyze and the CLI's rendering, under catch_unwind and a watchdog. Three input-dependent panics found on the pinned tree were fixed (fix: commits).",
+    "note": "Level `other`: the kernel-checked part does not carry the property; the search explores, it does not prove. Trusted: harness, catch_unwind catching every panic (stack overflow and allocation failure abort the process and are reported as harness crashes).",
+    "technique": "Lean theorems on modelled failure sites + failing-input search (token soups, grammar-directed ill-formed terms, corpus token mutations, arbitrary strings) with panic/hang/location oracles",
+}
